@@ -12,7 +12,7 @@ META = {
                           'C emitted by w2c2 (c.c wasmCWriteFunctionCode and helpers) for every integer opcode and nested expressions'],
     'bounds': {'operand values': 'all 2^32 / 2^64 per operand', 'programs': 'one per integer opcode + generated nested expressions depth<=3',
                'unwind': 70},
-    'assumptions': ['C99 / and % on the signed/unsigned views are the spec idiv/irem (6.5.5p6); checked: trap predicate, trap code, view, width, operand order',
+    'assumptions': ['the reference semantics h/ref_ops.h is itself validated on every run against the assert_return/assert_trap vectors of /repo/tests/*.wast (native run; a disagreement aborts the check as broken machinery)', 'C99 / and % on the signed/unsigned views are the spec idiv/irem (6.5.5p6); checked: trap predicate, trap code, view, width, operand order',
                     'allocation failure out of scope (--no-malloc-may-fail)'],
     'out_of_claim': ['program shapes outside the generated family (deeper nesting, larger bodies)'],
 }
@@ -55,4 +55,7 @@ def make_jobs(ctx):
         seed = 0 if k < n * 2 // 3 else ctx.seed + 1
         jobs.append(e2_job(ctx, 'nested_%d_%d' % (seed, k), F.nested_int(seed, k), [{'call': 'f'}],
                            backends=['sat', 'cvc5', 'z3'], witnesses=['end of script|trap path'], group='nested_%d_%d' % (seed, k)))
-    return jobs
+    # oracle self-validation against the repository's own specification test vectors (BrokenMachinery on disagreement)
+    import wastvec
+    aux = wastvec.run_selftest(ctx, lambda op: op[0] == 'i' and 'trunc' not in op and 'reinterpret' not in op)
+    return jobs, aux
